@@ -91,11 +91,16 @@ def gen_project(rng, idx=None):
         lines.append("# about f")
     if deco_line:
         lines.append(deco_line)
+    f_uses_h = rng.random() < 0.6
     lines.append(header)
-    lines.append("    return %r + h()%s" % (source + ":f", call))
+    lines.append("    return %r%s%s" % (source + ":f", " + h()" if f_uses_h else "", call))
     lines.append("def g():")
     lines.append("    return %r" % (source + ":g"))
-    if rng.random() < 0.5:
+    source_uses_f = rng.random() < 0.5
+    if idx is not None and uses_import in ("try", "if"):
+        # first round: without the import cycle, so that the conditional import itself is what is tested
+        source_uses_f = (idx // len(IMPORT_USES)) % 2 == 1
+    if source_uses_f:
         lines.append("show(f)")
     files[source] = "".join(x + "\n" for x in lines)
     sd = L.modname_of_rel(source)
@@ -162,7 +167,10 @@ def gen_project(rng, idx=None):
         # the back-import of h: not a destination
         others = [o for o in others if o != lib]
     return {"files": files, "source": source, "dests": others, "clients": clients,
-            "features": {"uses_import": uses_import, "lib": lib},
+            "features": {"uses_import": uses_import, "lib": lib,
+                         # the destination back-imports from the source (h, or a conditionally imported name)
+                         # while the source imports the destination
+                         "cycle": bool(source_uses_f and (f_uses_h or uses_import in ("try", "if")))},
             "forced": [homonym[0]] if homonym is not None and homonym[0] in others else []}
 
 
@@ -225,7 +233,7 @@ def verdicts(files, source, dest, raised, before, after):
     # a module that only fails because a module it imports is itself reported is not reported twice
     out = {}
     for rel, (desc, culprit) in bad.items():
-        if culprit and culprit != rel and culprit in bad:
+        if L.blame_root(rel, lambda r: bad[r][1] if r in bad else None, set(bad)) != rel:
             continue
         out[rel] = desc
     return out
@@ -251,6 +259,10 @@ def classify(obj, rel):
     """structural signature of a failing module of a MoveGlobal project"""
     files, source, dest = obj["files"], obj["source"], obj["dest"]
     feats = obj.get("features", {})
+    # the source still uses the moved function and the moved function uses a global that stays in the source:
+    # source imports destination, destination back-imports from the source -> import cycle
+    if feats.get("cycle") and obj.get("circular"):
+        return "import-cycle-between-source-and-destination"
     if rel == source:
         return "source"
     if rel == dest:
@@ -318,6 +330,7 @@ def run(ctx):
             for rel, desc in sorted(bad.items()):
                 obj = minimal(proj, dest, rel)
                 obj["failure"] = failure_class(desc)
+                obj["circular"] = "circular import" in desc or "partially initialized" in desc
                 ctx.count("moveglobal_oracle_failures:" + classify(obj, rel))
                 ctx.violation(obj, "C05 MoveGlobal %s -> %s: module %s %s" % (proj["source"], dest, rel, desc))
             if len(ctx.samples) < 4 and not raised and proj["clients"]:
